@@ -1,0 +1,20 @@
+//go:build verif
+
+package diff
+
+// Contracts for the deductive verifier under /verif (comment-only; build tag verif).
+
+// An edit script is a list of chunks: delete `del` lines of a, insert `ins` lines of b, keep `eq`.
+// dels/inss/eqs: totals over the first n chunks.
+//@ spec func dels(c []chunk, n int) int decreases n = n <= 0 ? 0 : dels(c, n - 1) + c[n-1].del
+//@ spec func inss(c []chunk, n int) int decreases n = n <= 0 ? 0 : inss(c, n - 1) + c[n-1].ins
+//@ spec func eqs(c []chunk, n int) int decreases n = n <= 0 ? 0 : eqs(c, n - 1) + c[n-1].eq
+
+// merge folds oth into c when that keeps the script's meaning: the totals are preserved.
+//@ func chunk.merge
+//@   requires c.del >= 0 && c.ins >= 0 && c.eq >= 0 && oth.del >= 0 && oth.ins >= 0 && oth.eq >= 0
+//@   modifies c
+//@   ensures result ==> c.del == old(c.del) + oth.del && c.ins == old(c.ins) + oth.ins && c.eq == old(c.eq) + oth.eq
+//@   ensures result ==> (old(c.eq) == 0 || (oth.ins == 0 && oth.del == 0))
+//@   ensures !result ==> c.del == old(c.del) && c.ins == old(c.ins) && c.eq == old(c.eq)
+//@   ensures !result ==> old(c.eq) != 0 && (oth.ins != 0 || oth.del != 0)
